@@ -123,6 +123,33 @@ macro_rules! run_family {
 			if it.len() != model.len() {
 				return Ok(Some(fail("normalized_len", 0, "len", format!("normalized_segments().len() = {} but it yields {} items", it.len(), model.len()), text, None, None)));
 			}
+			// "the length reported by the normalized-segment iterator is consistent with that
+			// sequence": dot-segment removal on the independent '/'-split (RFC 3986 5.2.4 with
+			// Errata 4547, as C09 words it) leaves this many segments
+			let want_len = {
+				let abs = bytes.first() == Some(&b'/');
+				let mut stack: Vec<&[u8]> = Vec::new();
+				for (t, _) in &model_all {
+					match t.as_slice() {
+						b"." => {}
+						b".." => {
+							let nothing_to_remove = stack.last().map(|s| *s == b"..").unwrap_or(true);
+							if nothing_to_remove {
+								if !abs {
+									stack.push(b"..");
+								}
+							} else {
+								stack.pop();
+							}
+						}
+						x => stack.push(x),
+					}
+				}
+				stack.len()
+			};
+			if it.len() != want_len {
+				return Ok(Some(fail("normalized_len_vs_split", 0, "len", format!("normalized_segments().len() = {} but removing dot segments from the '/'-split leaves {}", it.len(), want_len), text, None, None)));
+			}
 			for (k, c) in case.schedule.bytes().enumerate() {
 				let front = c == b'F';
 				let got = if front { it.next() } else { it.next_back() };
